@@ -178,7 +178,8 @@ class _DocProxy:
 
     def clear(self):
         """Clear proxy data."""
-        self.doc.clear()
+        if not self.dry_run:
+            self.doc.clear()
 
     def update(self, other):
         """Update proxy data with other."""
@@ -465,8 +466,11 @@ class DocSync:
         def __str__(self):
             return f"{type(self).__name__}({self.key_strategy})"
 
-        def __call__(self, src, dst, root=""):
+        def __call__(self, src, dst, root="", skipped_keys=None):
             """Synchronize src and dst."""
+            if skipped_keys is None:
+                # Conflicts are recorded per (top-level) call, the functor may be shared.
+                skipped_keys = set()
             if src == dst:
                 return
             for key, value in src.items():
@@ -474,18 +478,20 @@ class DocSync:
                     if dst[key] == value:
                         continue
                     elif isinstance(value, Mapping):
-                        self(src[key], dst[key], root + key + ".")
+                        self(src[key], dst[key], root + key + ".", skipped_keys)
                         continue
                     elif self.key_strategy is None or not self.key_strategy(root + key):
-                        self.skipped_keys.add(root + key)
+                        skipped_keys.add(root + key)
                         continue
                 dst[key] = value
 
             # Check for skipped keys and raise an exception in case that no strategy
             # was provided, otherwise just log them.
-            if self.skipped_keys and not root:
+            if not root:
+                self.skipped_keys = skipped_keys
+            if skipped_keys and not root:
                 if self.key_strategy is None:
-                    raise DocumentSyncConflict(self.skipped_keys)
+                    raise DocumentSyncConflict(skipped_keys)
                 else:
                     logger.more("Skipped keys: {}".format(", ".join(self.skipped_keys)))
 
